@@ -81,7 +81,7 @@ impl Message {
 //@@ ret Result<Seq<Emitted>, SerError>
 //@@ spec
     ensures
-        r is Ok ==> r->Ok_0 =~= sections_of(*self),       // [C03.message.sections] a message is written as its sections in the AMQP order; an optional section is written exactly when it is set (Some), however empty its content -- so what is decoded has the same sections
+        r is Ok ==> r->Ok_0 =~= sections_of(*self),       // [C03.message.sections] [C05.message.sections-in-spec-order] a message is written as its sections in the AMQP order; an optional section is written exactly when it is set (Some), however empty its content -- so what is decoded has the same sections
 //@@ end
 
 //@@ fn file=fe2o3-amqp-types/src/messaging/message/mod.rs impl=`impl<T> Message<T>` name=sections
